@@ -45,6 +45,7 @@ type Contract struct {
 	NoPanic  bool
 	Inline   bool
 	Pure     bool // callee has no side effects at all (modifies nothing)
+	Function bool // pure and deterministic: the result is an (uninterpreted) function of the scalar arguments
 	Trusted  bool // contract is assumed, body not verified (external / LMDB / stdlib)
 	Loops    map[int]*LoopContract
 	Params   []string // for extern contracts: parameter names
@@ -64,15 +65,20 @@ type SpecFunc struct {
 	Opaque bool // relational mode may treat it as an uninterpreted function of its slice argument
 }
 
+type LemmaStep struct {
+	Kind   string // var | call | assume | prove
+	Names  []string
+	Type   string // var
+	Callee string // call
+	Clause Clause // assume / prove / call (arguments as a call expression)
+}
+
 type Lemma struct {
-	Name   string
-	Vars   []string // "name type"
-	Hyps   []Clause
-	Goal   Clause
-	Pkg    string
-	File   string
-	Line   int
-	Bounded string
+	Name  string
+	Steps []LemmaStep
+	Pkg   string
+	File  string
+	Line  int
 }
 
 type ContractSet struct {
@@ -283,7 +289,7 @@ func (cs *ContractSet) loadFile(path, repoDir string) error {
 		case "extern":
 			// extern <key> (p1, p2) (r1, r2)
 			curLemma = nil
-			m := regexp.MustCompile(`^(\S+)\s*\(([^)]*)\)\s*(?:\(([^)]*)\))?\s*$`).FindStringSubmatch(rest)
+			m := regexp.MustCompile(`^([^\s(]+)\s*\(([^)]*)\)\s*(?:\(([^)]*)\))?\s*$`).FindStringSubmatch(rest)
 			if m == nil {
 				return fmt.Errorf("%s:%d: bad extern header %q", path, lineNo, body)
 			}
@@ -315,21 +321,28 @@ func (cs *ContractSet) loadFile(path, repoDir string) error {
 			if curLemma != nil {
 				switch word {
 				case "var":
-					curLemma.Vars = append(curLemma.Vars, rest)
-				case "bounded":
-					curLemma.Bounded = rest
-				case "assume":
+					f := strings.Fields(rest)
+					if len(f) < 2 {
+						return fmt.Errorf("%s:%d: var name type", path, lineNo)
+					}
+					curLemma.Steps = append(curLemma.Steps, LemmaStep{Kind: "var", Names: []string{f[0]}, Type: strings.Join(f[1:], " ")})
+				case "call":
+					// call r1, r2 = f(args)
+					m := regexp.MustCompile(`^([A-Za-z_0-9, ]+?)\s*=\s*(.*)$`).FindStringSubmatch(rest)
+					if m == nil {
+						return fmt.Errorf("%s:%d: call r1, r2 = f(args)", path, lineNo)
+					}
+					c, err := parseClause(m[2], path, lineNo)
+					if err != nil {
+						return err
+					}
+					curLemma.Steps = append(curLemma.Steps, LemmaStep{Kind: "call", Names: fieldsComma(m[1]), Clause: c})
+				case "assume", "prove":
 					c, err := parseClause(rest, path, lineNo)
 					if err != nil {
 						return err
 					}
-					curLemma.Hyps = append(curLemma.Hyps, c)
-				case "prove":
-					c, err := parseClause(rest, path, lineNo)
-					if err != nil {
-						return err
-					}
-					curLemma.Goal = c
+					curLemma.Steps = append(curLemma.Steps, LemmaStep{Kind: word, Clause: c})
 				default:
 					return fmt.Errorf("%s:%d: unknown lemma clause %q", path, lineNo, word)
 				}
@@ -381,6 +394,9 @@ func (cs *ContractSet) loadFile(path, repoDir string) error {
 				cur.Inline = true
 			case "pure":
 				cur.Pure = true
+			case "function":
+				cur.Pure = true
+				cur.Function = true
 			case "trusted":
 				cur.Trusted = true
 			case "ghost":
